@@ -29,33 +29,40 @@ PATTERNS = ["", "", "", "^_", "_$", "^[a-z]{1,3}_", "[0-9]+", "(?i)^arg_", "^v",
 
 def _doc():
     line = st.one_of(G.benign_line(), G.benign_line(), st.just(""),
-                     st.sampled_from([":param <<P0>>: Described by hand.", ":type <<P0>>: custom", ":param other: Text."]))
+                     st.sampled_from([":param <<P0>>: Described by hand.", ":type <<P0>>: custom", ":param other: Text.",
+                                      ":type <<P1>>: longer", ":param <<P1>>: The longer one.", "Closing words after the fields."]))
     return st.fixed_dictionaries({"lines": st.lists(line, max_size=4), "form": st.sampled_from(["leader", "leader", "bare"]),
                                   "mpos": st.integers(0, 8)})
 
 
 def strategy(tier):
     p = G.Profile(doc=_doc(), kinds={"class", "attr", "member", "func", "set", "generic", "parseargs", "block"},
-                  max_items=5 if tier == "quick" else 7, depth=3 if tier == "quick" else 5, dangling=False, groups=False, impl_doc=True,
+                  max_items=5 if tier == "quick" else 7, depth=3 if tier == "quick" else 5, dangling=False, groups=False, impl_doc=True, dups=True,
                   moddoc=False, body_max=3, tests=False,
                   weights={"class": 5, "member": 2, "attr": 2, "func": 1})
     return st.fixed_dictionaries({"module": G.module(p), "layout": G.layout_choices(24),
                                   "settings": st.fixed_dictionaries({"strip": st.fixed_dictionaries({
                                       "member": st.sampled_from(PATTERNS), "function": st.sampled_from(["", "^zz"]),
-                                      "macro": st.just("")})})})
+                                      "macro": st.just("")})}),
+                                  "prefix_params": st.booleans()})
 
 
 def prepare(case):
     mod = copy.deepcopy(case["module"])
     pat = case["settings"]["strip"]["member"]
     for it, _, _ in G.walk(mod["items"]):
+        if it["k"] == "member" and case.get("prefix_params") and len(it["impl"]["params"]) >= 2:
+            # one parameter name is a proper prefix of the next one (dest / dest_dir)
+            it["impl"]["params"][1] = it["impl"]["params"][0] + "_ext"
         d = it.get("doc")
         if not d:
             continue
-        p0 = "none"
+        p0 = p1 = "none"
         if it["k"] == "member" and it["impl"]["params"]:
             p0 = re.sub(pat, "", it["impl"]["params"][0])
-        d["lines"] = [l.replace("<<P0>>", p0) for l in d["lines"]]
+            if len(it["impl"]["params"]) >= 2:
+                p1 = re.sub(pat, "", it["impl"]["params"][1])
+        d["lines"] = [l.replace("<<P0>>", p0).replace("<<P1>>", p1) for l in d["lines"]]
         if d.get("form") == "bare" and not all(l == "" or l[0].isalpha() for l in d["lines"]):
             d["form"] = "leader"
     return mod
